@@ -45,34 +45,45 @@ Proof.
 Qed.
 
 (* ---------- offsets ---------- *)
-Lemma off_go_nonneg ws : forall P k0 k, 0 <= off_go ws k0 P k.
+Lemma long_at_S ws k : long_at ws (S k) = long_at (tl ws) k.
+Proof. unfold long_at. destruct ws; simpl; [destruct k; reflexivity|reflexivity]. Qed.
+Lemma long_at_0 ws : long_at ws 0 = hd true ws.
+Proof. destruct ws; reflexivity. Qed.
+
+Lemma off_go_nonneg : forall P ws k, 0 <= off_go ws P k.
 Proof.
-  induction P as [|i P IH]; intros k0 k; destruct k; simpl; try lia.
-  pose proof (isize_pos (long_at ws k0) i). pose proof (IH (S k0) k). lia.
+  induction P as [|i P IH]; intros ws k; destruct k; simpl; try lia.
+  pose proof (isize_pos (hd true ws) i). pose proof (IH (tl ws) k). lia.
 Qed.
 
-Lemma off_go_S ws : forall P k0 k i, nth_error P k = Some i ->
-  off_go ws k0 P (S k) = off_go ws k0 P k + isize (long_at ws (k0 + k)%nat) i.
+Lemma off_go_S : forall P ws k i, nth_error P k = Some i ->
+  off_go ws P (S k) = off_go ws P k + isize (long_at ws k) i.
 Proof.
-  induction P as [|j P IH]; intros k0 k i H; destruct k; simpl in H; try discriminate.
-  - inv H. simpl. destruct P; simpl; rewrite Nat.add_0_r; lia.
-  - change (off_go ws k0 (j :: P) (S (S k))) with (isize (long_at ws k0) j + off_go ws (S k0) P (S k)).
-    change (off_go ws k0 (j :: P) (S k)) with (isize (long_at ws k0) j + off_go ws (S k0) P k).
-    rewrite (IH (S k0) k i H). replace (S k0 + k)%nat with (k0 + S k)%nat by lia. lia.
+  induction P as [|j P IH]; intros ws k i H; destruct k; simpl in H; try discriminate.
+  - inv H. rewrite long_at_0. simpl. destruct P; simpl; lia.
+  - change (off_go ws (j :: P) (S (S k))) with (isize (hd true ws) j + off_go (tl ws) P (S k)).
+    change (off_go ws (j :: P) (S k)) with (isize (hd true ws) j + off_go (tl ws) P k).
+    rewrite (IH (tl ws) k i H), long_at_S. lia.
 Qed.
 
-Lemma off_go_le ws : forall P k0 k k', (k <= k')%nat -> off_go ws k0 P k <= off_go ws k0 P k'.
+Lemma off_go_le : forall P ws k k', (k <= k')%nat -> off_go ws P k <= off_go ws P k'.
 Proof.
-  induction P as [|j P IH]; intros k0 k k' H; destruct k, k'; simpl; try lia.
-  - pose proof (isize_pos (long_at ws k0) j). pose proof (off_go_nonneg ws P (S k0) k'). lia.
-  - pose proof (IH (S k0) k k'). lia.
+  induction P as [|j P IH]; intros ws k k' H; destruct k, k'; simpl; try lia.
+  - pose proof (isize_pos (hd true ws) j). pose proof (off_go_nonneg P (tl ws) k'). lia.
+  - pose proof (IH (tl ws) k k'). lia.
 Qed.
 
-Lemma off_go_lt ws P k0 k : (k < length P)%nat -> off_go ws k0 P k < off_go ws k0 P (length P).
+Lemma off_go_lt ws P k : (k < length P)%nat -> off_go ws P k < off_go ws P (length P).
 Proof.
   intros H. destruct (nth_error P k) as [i|] eqn:E; [|apply nth_error_None in E; lia].
-  pose proof (off_go_S ws P k0 k i E). pose proof (isize_pos (long_at ws (k0 + k)%nat) i).
-  pose proof (off_go_le ws P k0 (S k) (length P)). lia.
+  pose proof (off_go_S P ws k i E). pose proof (isize_pos (long_at ws k) i).
+  pose proof (off_go_le P ws (S k) (length P)). lia.
+Qed.
+
+Lemma off_go_beyond : forall P ws k, (length P <= k)%nat -> off_go ws P k = off_go ws P (length P).
+Proof.
+  induction P as [|j P IH]; intros ws k H; destruct k; simpl in *; try lia.
+  rewrite (IH (tl ws) k) by lia. reflexivity.
 Qed.
 
 Lemma off_0 ws P : off ws P 0 = 0.
@@ -87,27 +98,27 @@ Proof.
 Qed.
 
 (* ---------- the encoding of instruction k inside the script ---------- *)
-Lemma asm_go_spec tgt n ws : forall P k0 o bs, asm_go tgt n ws k0 o P = Some bs ->
-  Z.of_nat (length bs) = off_go ws k0 P (length P) /\
+Lemma asm_go_spec tgt n : forall P ws o bs, asm_go tgt n ws o P = Some bs ->
+  Z.of_nat (length bs) = off_go ws P (length P) /\
   forall k i, nth_error P k = Some i -> exists op ps,
-    enc tgt n (o + off_go ws k0 P k) (long_at ws (k0 + k)%nat) i = Some (op, ps) /\
-    skipn (Z.to_nat (off_go ws k0 P k)) bs
-    = byte_of_opcode op :: ps ++ skipn (Z.to_nat (off_go ws k0 P (S k))) bs.
+    enc tgt n (o + off_go ws P k) (long_at ws k) i = Some (op, ps) /\
+    skipn (Z.to_nat (off_go ws P k)) bs
+    = byte_of_opcode op :: ps ++ skipn (Z.to_nat (off_go ws P (S k))) bs.
 Proof.
-  induction P as [|j P IH]; intros k0 o bs H.
+  induction P as [|j P IH]; intros ws o bs H.
   - simpl in H. inv H. split; [reflexivity|]. intros [|k] i Hk; discriminate.
   - simpl in H.
-    destruct (enc tgt n o (long_at ws k0) j) as [[op ps]|] eqn:Ee; [|discriminate].
-    destruct (asm_go tgt n ws (S k0) (o + isize (long_at ws k0) j) P) as [r|] eqn:Er; [|discriminate].
+    destruct (enc tgt n o (hd true ws) j) as [[op ps]|] eqn:Ee; [|discriminate].
+    destruct (asm_go tgt n (tl ws) (o + isize (hd true ws) j) P) as [r|] eqn:Er; [|discriminate].
     inv H. destruct (IH _ _ _ Er) as [Hlen Hnth].
     pose proof (enc_size _ _ _ _ _ _ _ Ee) as Hsz.
     split.
     + cbn [length off_go]. rewrite app_length. lia.
     + intros [|k] i Hk.
-      * simpl in Hk. inv Hk. exists op, ps. rewrite Nat.add_0_r.
-        replace (off_go ws k0 (i :: P) 0) with 0 by reflexivity. rewrite Z.add_0_r. split; [assumption|].
+      * simpl in Hk. inv Hk. exists op, ps. rewrite long_at_0.
+        replace (off_go ws (i :: P) 0) with 0 by reflexivity. rewrite Z.add_0_r. split; [assumption|].
         change (skipn (Z.to_nat 0) ?l) with l. f_equal. f_equal.
-        replace (off_go ws k0 (i :: P) 1) with (isize (long_at ws k0) i)
+        replace (off_go ws (i :: P) 1) with (isize (hd true ws) i)
           by (destruct P; simpl; lia).
         rewrite <- Hsz. change (byte_of_opcode op :: ps ++ r) with ((byte_of_opcode op :: ps) ++ r).
         replace (1 + Z.of_nat (length ps)) with (Z.of_nat (length (byte_of_opcode op :: ps)) + 0)
@@ -115,9 +126,9 @@ Proof.
         rewrite skipn_app_plus by lia. reflexivity.
       * simpl in Hk. destruct (Hnth k i Hk) as (op' & ps' & He' & Hs').
         exists op', ps'.
-        change (off_go ws k0 (j :: P) (S k)) with (isize (long_at ws k0) j + off_go ws (S k0) P k).
-        change (off_go ws k0 (j :: P) (S (S k))) with (isize (long_at ws k0) j + off_go ws (S k0) P (S k)).
-        replace (k0 + S k)%nat with (S k0 + k)%nat by lia.
+        change (off_go ws (j :: P) (S k)) with (isize (hd true ws) j + off_go (tl ws) P k).
+        change (off_go ws (j :: P) (S (S k))) with (isize (hd true ws) j + off_go (tl ws) P (S k)).
+        rewrite long_at_S.
         split.
         -- rewrite <- He'. f_equal. lia.
         -- change (byte_of_opcode op :: ps ++ r) with ((byte_of_opcode op :: ps) ++ r).
@@ -133,7 +144,7 @@ Lemma assemble_spec ws P bs : assemble_with ws P = Some bs ->
     enc (off ws P) (length P) (off ws P k) (long_at ws k) i = Some (op, ps) /\
     skipn (Z.to_nat (off ws P k)) bs = byte_of_opcode op :: ps ++ skipn (Z.to_nat (off ws P (S k))) bs.
 Proof.
-  intros H. destruct (asm_go_spec _ _ _ _ _ _ _ H) as [Hl Hn]. split; [exact Hl|].
+  intros H. destruct (asm_go_spec _ _ _ _ _ _ H) as [Hl Hn]. split; [exact Hl|].
   intros k i Hk. destruct (Hn k i Hk) as (op & ps & He & Hs). exists op, ps.
   rewrite Z.add_0_l in He. split; assumption.
 Qed.
